@@ -11,6 +11,30 @@ use tiny_http::{Header, Request, Response, Server, StatusCode};
 /// client ends of the connections of the execution in progress (read by the D1 controller)
 pub static REGISTRY: std::sync::Mutex<Vec<(usize, Cli)>> = std::sync::Mutex::new(Vec::new());
 
+thread_local! {
+    static IN_LIB: std::cell::Cell<u32> = std::cell::Cell::new(0);
+}
+
+/// is the current (harness) thread executing a call into the library?
+pub fn in_lib() -> bool {
+    IN_LIB.with(|c| c.get() > 0)
+}
+
+/// run a call into the library; a panic inside it is attributed to the library (C14)
+fn lib<T>(f: impl FnOnce() -> T) -> T {
+    IN_LIB.with(|c| c.set(c.get() + 1));
+    struct Leave;
+    impl Drop for Leave {
+        fn drop(&mut self) {
+            if !std::thread::panicking() {
+                IN_LIB.with(|c| c.set(c.get().saturating_sub(1)));
+            }
+        }
+    }
+    let _l = Leave;
+    f()
+}
+
 pub fn js(s: &str) -> String {
     let mut o = String::with_capacity(s.len() + 2);
     o.push('"');
@@ -43,6 +67,7 @@ struct Shared {
     seen: Vec<Mutex<usize>>,
     seen_cv: Vec<Condvar>,
     kept: Mutex<Vec<Request>>,
+    order_ctr: std::sync::atomic::AtomicUsize,
     handlers: Mutex<Vec<world::Join>>,
 }
 
@@ -335,7 +360,9 @@ fn handle(sh: &Arc<Shared>, mut rq: Request, c: usize, m: usize) {
     }
     for _ in 0..plan.ask {
         world::log(format!("\"ev\":\"Ask\",\"c\":{},\"m\":{}", c, m));
-        let _ = rq.as_reader();
+        lib(|| {
+            let _ = rq.as_reader();
+        });
     }
     if !plan.read.is_empty() || plan.to_eof || plan.upto.map_or(false, |u| u > 0) {
         let mut off = 0usize;
@@ -363,7 +390,7 @@ fn handle(sh: &Arc<Shared>, mut rq: Request, c: usize, m: usize) {
             }
             world::log(format!("\"ev\":\"ReadCall\",\"c\":{},\"m\":{},\"want\":{}", c, m, want));
             let mut buf = vec![0u8; want];
-            let r = rq.as_reader().read(&mut buf);
+            let r = lib(|| rq.as_reader().read(&mut buf));
             match r {
                 Ok(n) => {
                     let ok = off + n <= expect_body.len() && buf[..n] == expect_body[off..off + n];
@@ -417,7 +444,7 @@ fn handle(sh: &Arc<Shared>, mut rq: Request, c: usize, m: usize) {
             if let Some(t) = a.thr {
                 resp = resp.with_chunked_threshold(t);
             }
-            let r = rq.respond(resp);
+            let r = lib(|| rq.respond(resp));
             world::log(format!(
                 "\"ev\":\"AnsEnd\",\"c\":{},\"m\":{},\"ok\":{},\"err\":{}",
                 c,
@@ -432,7 +459,7 @@ fn handle(sh: &Arc<Shared>, mut rq: Request, c: usize, m: usize) {
                 "\"ev\":\"AnsStart\",\"c\":{},\"m\":{},\"how\":\"writer\",\"st\":{},\"len\":{}",
                 c, m, a.status, total
             ));
-            let mut w = rq.into_writer();
+            let mut w = lib(|| rq.into_writer());
             let body = resp_body(c, m, total);
             let mut ok = true;
             let mut errk = String::new();
@@ -479,7 +506,7 @@ fn handle(sh: &Arc<Shared>, mut rq: Request, c: usize, m: usize) {
                 nparts,
                 a.flush == "each" || a.flush == "last"
             ));
-            drop(w);
+            lib(|| drop(w));
             world::log(format!("\"ev\":\"AnsEnd\",\"c\":{},\"m\":{},\"ok\":{},\"err\":{}", c, m, ok, js(&errk)));
         }
         "upgrade" => {
@@ -521,7 +548,7 @@ fn handle(sh: &Arc<Shared>, mut rq: Request, c: usize, m: usize) {
                 "\"ev\":\"AnsStart\",\"c\":{},\"m\":{},\"how\":\"drop\",\"st\":500,\"len\":0",
                 c, m
             ));
-            drop(rq);
+            lib(|| drop(rq));
             world::log(format!("\"ev\":\"AnsEnd\",\"c\":{},\"m\":{},\"ok\":true,\"err\":\"\"", c, m));
         }
         "panic" => {
@@ -574,7 +601,11 @@ fn one_recv(sh: &Arc<Shared>, server: &Server, t: usize, kind: &str, ms: u64) ->
     };
     match &r {
         Got::Req(rq) => {
-            let (c, m) = parse_id(rq.url());
+            let (c, m) = if sh.sc.by_order {
+                (0i64, sh.order_ctr.fetch_add(1, std::sync::atomic::Ordering::SeqCst) as i64)
+            } else {
+                parse_id(rq.url())
+            };
             let known = c >= 0
                 && (c as usize) < sh.sc.conns.len()
                 && m >= 0
@@ -615,7 +646,12 @@ fn one_recv(sh: &Arc<Shared>, server: &Server, t: usize, kind: &str, ms: u64) ->
 }
 
 fn dispatch(sh: &Arc<Shared>, rq: Request, mode: &str) {
-    let (c, m) = parse_id(rq.url());
+    let (c, m) = if sh.sc.by_order {
+        // one_recv has just numbered it
+        (0i64, sh.order_ctr.load(std::sync::atomic::Ordering::SeqCst) as i64 - 1)
+    } else {
+        parse_id(rq.url())
+    };
     let known = c >= 0
         && (c as usize) < sh.sc.conns.len()
         && m >= 0
@@ -763,6 +799,7 @@ pub fn env_main(sc: Scenario) {
         seen: (0..n).map(|_| Mutex::new(0)).collect(),
         seen_cv: (0..n).map(|_| Condvar::new()).collect(),
         kept: Mutex::new(Vec::new()),
+        order_ctr: std::sync::atomic::AtomicUsize::new(0),
         handlers: Mutex::new(Vec::new()),
     });
     let (server, addr) = world::make_server(&sc.transport, &sc.id);
